@@ -112,14 +112,16 @@ def gen_utimes(rng, cid):
 class Fam:
     """a family of programs: progs[0] is the top; every program knows its includes, inherits and function texts"""
 
-    def __init__(self, rng, cid, nprog=None, big=False):
+    def __init__(self, rng, cid, nprog=None, big=False, saves=None):
         self.rng = rng
         self.dir = "c17/w/" + cid
         self.used_names = set()
         nprog = rng.range(1, 4) if nprog is None else nprog
         self.progs = []
         for i in range(nprog):
-            self.progs.append({"file": "p%d" % i, "k": rng.range(1, 99), "inh": [], "inc": [], "fns": [], "labels": []})
+            # names of different lengths (the binary stores the names of the program and of its parents)
+            self.progs.append({"file": "p%d%s" % (i, "x" * rng.weighted([(0, 3), (1, 1), (3, 1), (7, 1)])), "k": rng.range(1, 99),
+                               "inh": [], "inc": [], "fns": [], "labels": []})
         # inheritance: a chain, sometimes the top inherits two
         for i in range(nprog - 1):
             self.progs[i]["inh"].append(i + 1)
@@ -127,8 +129,8 @@ class Fam:
             self.progs[1]["inh"].remove(2)
             self.progs[0]["inh"].append(2)
         self.incs = {}     # include file name -> constant
-        for p in self.progs:
-            p["save"] = rng.chance(5, 6)
+        for n, p in enumerate(self.progs):
+            p["save"] = rng.chance(5, 6) if saves is None else saves[n]
             p["types"] = rng.chance(1, 2)
             for _ in range(rng.weighted([(0, 3), (1, 4), (2, 2)])):
                 nm = "h%d.h" % len(self.incs)
@@ -367,8 +369,8 @@ class Fam:
         return toks, expect
 
 
-def sys_case(rng, cid, steps=None, nprog=None, big=False, script=None, mode=None):
-    fam = Fam(rng, cid, nprog=nprog, big=big)
+def sys_case(rng, cid, steps=None, nprog=None, big=False, script=None, mode=None, saves=None):
+    fam = Fam(rng, cid, nprog=nprog, big=big, saves=saves)
     t = 1000
     L = ["clean /" + fam.dir]
     for nm in sorted(fam.incs):
@@ -407,11 +409,20 @@ def sys_case(rng, cid, steps=None, nprog=None, big=False, script=None, mode=None
         for _ in range(nsteps):
             script.append(rng.weighted([("nothing", 6), ("edit-src", 3), ("edit-inc", 3), ("touch-inh", 2), ("touch-src", 2),
                                         ("touch-inc", 1), ("simul-restart", 2), ("restart", 1), ("equal-inc", 1),
-                                        ("simul-norestart", 1), ("edit-parent-inc", 2), ("damage", 2), ("foreign", 2), ("moved", 1)]))
+                                        ("simul-norestart", 1), ("edit-parent-inc", 2), ("damage", 2), ("foreign", 2), ("moved", 1), ("badload", 1)]))
     for act in script:
         t += 1
+        which = None
+        if isinstance(act, tuple):
+            act, which = act
+        if act == "badload":
+            # a file that does not compile is loaded first (same process: the compiler's error state is left behind)
+            bad = "%s/bad%d" % (fam.dir, t)
+            L.append("file /%s.c %s" % (bad, hx("int broken ( { return 1 }\n")))
+            L.append("mtime /%s.c %d" % (bad, t))
+            L.append("badload %s" % bad)
         if act == "edit-src":
-            i = rng.below(len(fam.progs))
+            i = rng.below(len(fam.progs)) if which is None else which
             fam.progs[i]["k"] += 1
             L.append("file /%s %s" % (fam.path(i), hx(fam.text(i))))
             L.append("mtime /%s %d" % (fam.path(i), t))
@@ -520,6 +531,19 @@ def boundary():
             c = sys_case(E.Rng(seed + 10 * k), "f%d_%d" % (k, seed), nprog=3, script=script, mode=["reloadp", "reload"][seed % 2])
             c.id = "b-sys-%d-%d-" % (k, seed) + "-".join(script)
             B.append(c)
+    # chains with unsaved parents: the leaf, the middle, or a header of them changes
+    for k, (saves, script) in enumerate([([True, False, False], [("edit-src", 2)]), ([True, False, False], [("edit-src", 1)]),
+                                         ([True, False, True], [("edit-src", 2)]), ([True, True, False], [("edit-src", 2)]),
+                                         ([True, False, False], ["edit-parent-inc"]), ([True, False, False, False], [("edit-src", 3)])]):
+        for seed in (7200, 7201):
+            c = sys_case(E.Rng(seed + 10 * k), "u%d_%d" % (k, seed), nprog=len(saves), script=script, saves=saves,
+                         mode=["reloadp", "reload"][seed % 2])
+            c.id = "b-sys-unsaved-%d-%d" % (k, seed)
+            B.append(c)
+    for k in range(4):
+        c = sys_case(E.Rng(7300 + k), "e%d" % k, nprog=2, script=["badload", "nothing"], mode="reload")
+        c.id = "b-sys-badload-%d" % k
+        B.append(c)
     # pragma positions (top / between functions / end / in an include / toggled), same process and new process
     for k in range(12):
         c = sys_case(E.Rng(6000 + k), "q%d" % k, nprog=2, script=["nothing", "nothing"], mode=["reloadp", "reload"][k % 2])
